@@ -17,10 +17,12 @@ import (
 	"net"
 	"net/http"
 	"net/netip"
+	"os"
 	"testing"
 	"time"
 
 	"github.com/AdguardTeam/AdGuardHome/internal/vfkit"
+	"gopkg.in/yaml.v3"
 )
 
 func TestVFC11Shutdown(t *testing.T) {
@@ -77,6 +79,15 @@ func TestVFC11Shutdown(t *testing.T) {
 	code, serr := vfShutdownAsk(first.conn, first.route)
 	if serr != nil || code != http.StatusForbidden {
 		t.Fatalf("VERIF-INCONCLUSIVE before shutdown GET %s answered %d (%v), want 403", first.route, code, serr)
+	}
+
+	// The assembly has saved the configuration once to create the file, which
+	// also put the list of users back into the configuration.  A program
+	// started on an existing file has not saved anything yet: its list is what
+	// the real initUsers leaves behind after handing the users of the file to
+	// the authentication module.  Go through that again.
+	if rerr := vfRestartAuth(); rerr != nil {
+		t.Fatalf("VERIF-INCONCLUSIVE re-creating the authentication module: %v", rerr)
 	}
 
 	started := time.Now()
@@ -138,6 +149,37 @@ func TestVFC11Shutdown(t *testing.T) {
 	case <-done:
 	case <-time.After(20 * time.Second):
 		t.Fatalf("cleanup() did not return within 20 s")
+	}
+
+	// A state-changing call that was still running when the shutdown began
+	// (the wait for open requests is limited to 5 s; a slow list download takes
+	// longer) ends with a save of the configuration.  What it saves is what
+	// the next start reads: the administrator account must be in it.
+	if werr := config.write(globalContext.tls); werr != nil {
+		t.Fatalf("VERIF-INCONCLUSIVE saving the configuration after cleanup(): %v", werr)
+	}
+	vfC11.Eval()
+	vfC11.Class("shutdown:configuration_saved_after_cleanup")
+	raw, rerr := os.ReadFile(configFilePath())
+	if rerr != nil {
+		t.Fatalf("reading the configuration saved after cleanup(): %v", rerr)
+	}
+	var saved struct {
+		Users []struct {
+			Name     string `yaml:"name"`
+			Password string `yaml:"password"`
+		} `yaml:"users"`
+	}
+	if yerr := yaml.Unmarshal(raw, &saved); yerr != nil {
+		t.Fatalf("the configuration saved after cleanup() does not parse: %v", yerr)
+	}
+	hasAdmin := false
+	for _, u := range saved.Users {
+		hasAdmin = hasAdmin || (u.Name == vfAdminUser && u.Password != "")
+	}
+	if !hasAdmin {
+		t.Fatalf("a configuration save that ended after cleanup() wrote users: %v -- the administrator %q is gone; the next start finds a "+
+			"configuration without accounts and serves every endpoint without credentials", saved.Users, vfAdminUser)
 	}
 }
 
